@@ -35,8 +35,13 @@ CONTENT = {
 }
 FILES = [("a.sql", "c1"), ("m.b.c.sql", "c2"), ("noext", "c1"), ("x.ddl", "c4"), ("y.hql", "c3"), ("z.bql", "c1"), ("w.txt", "c2"), ("k.json", "c1"),
          ("v.1.ddl", "c3"), ("my tables.sql", "c1"), ("a+b(1)@x.ddl", "c5"), ("[q] 'r'.sql", "c2"),
-         ("a.txt", "c4"), ("unsupported_inside.sql", "c6")]      # same stem as a.sql, not accepted by directory mode: single-file dumps overwrite a_schema.json with a result of another length
+         ("a.txt", "c4"), ("unsupported_inside.sql", "c6"), ("current.sql", "c2")]      # same stem as a.sql, not accepted by directory mode: single-file dumps overwrite a_schema.json with a result of another length
 ENCODINGS = {"c6": ["utf-8", "utf-16"], "c5": ["utf-8", "utf-16"], "c4": ["utf-8", "utf-16", "latin-1"], "c1": ["utf-8", "utf-16", "latin-1", "cp1251"], "c2": ["utf-8", "utf-16", "ascii"], "c3": ["utf-8", "utf-16", "utf-8-sig"]}
+
+
+# input files that are symbolic links to a file with ANOTHER base name kept outside the input directory: an entry point names its dump after
+# the path it was given, not after what the link points to
+LINKS = {"current.sql": "2024_07_orders.sql"}
 
 
 def frec(name, content):
@@ -99,7 +104,13 @@ def _replay(task):
         for name, cid in files:
             e = rnd.choice(ENCODINGS[cid])
             enc[name] = e
-            with open(os.path.join(PRE[(seed + len(name)) % len(PRE)] + IN, name), "w", encoding=e, newline="") as f:
+            path_ = os.path.join(PRE[(seed + len(name)) % len(PRE)] + IN, name)
+            if name in LINKS:
+                os.makedirs(root + "_lnk", exist_ok=True)       # (outside the observed tree; removed with it)
+                real_ = os.path.join(root + "_lnk", LINKS[name])
+                os.symlink(real_, path_)
+                path_ = real_
+            with open(path_, "w", encoding=e, newline="") as f:
                 f.write(CONTENT[cid])
         cid_of = dict(files)
 
@@ -204,6 +215,7 @@ def _replay(task):
     finally:
         os.chdir(old)
         shutil.rmtree(root, ignore_errors=True)
+        shutil.rmtree(root + "_lnk", ignore_errors=True)
 
 
 def _listing(root, dirs=True):
